@@ -179,7 +179,8 @@ theorem unhandled_fails_with_E (env : Env) (fuel : Nat) (states : Json) (name : 
 theorem retry_reruns_same_input (env : Env) (fuel : Nat) (states : Json) (name : Str) (state data ctx : Json)
     (retries : Nat) (e msg : Str) (st : St) (d : Rat) (k : Nat)
     (h : decideError ((listOf (fld state "Retry")).map retrierOf) ((listOf (fld state "Catch")).map catcherOf) e retries = .retry d k) :
-    handleErr env (fuel + 1) states name state data ctx retries e msg st = runFrom env fuel states name data ctx k st := by
+    handleErr env (fuel + 1) states name state data ctx retries e msg st =
+      runFrom env fuel states name data ctx k (st.after d) := by
   simp [handleErr, h]
 
 /-- a caught error transfers to the catcher's Next with the Error Output {Error, Cause} placed by the
@@ -249,7 +250,8 @@ theorem terminal_output_over_limit_retried_on_raw_input (env : Env) (fuel : Nat)
     (hE : isTrue (fld state "End") = true) (hL : (render out).length > env.maxData)
     (h : decideError ((listOf (fld state "Retry")).map retrierOf) ((listOf (fld state "Catch")).map catcherOf)
       (S "States.DataLimitExceeded") retries = .retry d k) :
-    leave env (fuel + 2) states name state raw out ctx retries st = runFrom env fuel states name raw ctx k st ∧
+    leave env (fuel + 2) states name state raw out ctx retries st =
+      runFrom env fuel states name raw ctx k (st.after d) ∧
       k = retries + 1 := by
   rw [terminal_output_over_limit_handled_on_raw_input env (fuel + 1) states name state raw out ctx retries st hE hL]
   exact ⟨retry_reruns_same_input env fuel states name state raw ctx retries _ _ st d k h,
@@ -274,7 +276,8 @@ theorem refused_transition_retried_on_raw_input (env : Env) (fuel : Nat) (states
     (hL : (render out).length > env.maxData)
     (h : decideError ((listOf (fld state "Retry")).map retrierOf) ((listOf (fld state "Catch")).map catcherOf)
       (S "States.DataLimitExceeded") retries = .retry d k) :
-    leave env (fuel + 2) states name state raw out ctx retries st = runFrom env fuel states name raw ctx k st ∧
+    leave env (fuel + 2) states name state raw out ctx retries st =
+      runFrom env fuel states name raw ctx k (st.after d) ∧
       k = retries + 1 := by
   rw [refused_transition_handled_on_raw_input env (fuel + 1) states name next state raw out ctx retries st hE hN hL]
   exact ⟨retry_reruns_same_input env fuel states name state raw ctx retries _ _ st d k h,
@@ -325,7 +328,7 @@ theorem fanout_refused_transition_keeps_retry_count (env : Env) (fuel : Nat) (st
     (h : decideError ((listOf (fld state "Retry")).map retrierOf) ((listOf (fld state "Catch")).map catcherOf)
       (S "States.DataLimitExceeded") retries = .retry d k) :
     joinAndLeave env (fuel + 3) states name state data ctx retries (.ok results) st =
-      runFrom env fuel states name data ctx (retries + 1) st := by
+      runFrom env fuel states name data ctx (retries + 1) (st.after d) := by
   have h2 := refused_transition_retried_on_raw_input env fuel states name next state data out ctx retries st d k
     hE hN hL h
   rw [← h2.2, ← h2.1]
@@ -333,11 +336,13 @@ theorem fanout_refused_transition_keeps_retry_count (env : Env) (fuel : Nat) (st
 
 /-- Task: a successful reply whose placed result is too large is retried on the Task's raw input -/
 theorem task_refused_transition_retried_on_raw_input (env : Env) (fuel : Nat) (states : Json) (name fn next : Str)
-    (state data ctx input params v result out : Json) (retries : Nat) (st : St) (d : Rat) (k : Nat)
+    (state data ctx input params v result out : Json) (retries : Nat) (st : St) (d : Rat) (k : Nat) (tEnd : Rat)
     (h : stateType state = S "Task")
     (hr : rpcFunction ((fldStr state "Resource").getD []) = some fn)
     (hi : applyPath data ctx (pathArg state "InputPath") = .ok input)
     (hp : tmplOpt env input ctx (fld state "Parameters") = .ok params)
+    (ha : taskArrival (env.delay fn params (bump st.counts (fn, params)).1) (taskDeadline state st.clock) st.clock
+      = some (tEnd, false))
     (hv : taskReply env.maxData (env.task fn params (bump st.counts (fn, params)).1) = .ok v)
     (hs : tmplOpt env v ctx (fld state "ResultSelector") = .ok result)
     (hm : mergeResult data ctx result state = .ok out)
@@ -346,18 +351,19 @@ theorem task_refused_transition_retried_on_raw_input (env : Env) (fuel : Nat) (s
     (hd : decideError ((listOf (fld state "Retry")).map retrierOf) ((listOf (fld state "Catch")).map catcherOf)
       (S "States.DataLimitExceeded") retries = .retry d k) :
     runState env (fuel + 3) states name state data ctx retries st =
-      runFrom env fuel states name data ctx (retries + 1) (st.taskCall (bump st.counts (fn, params)).2 ((fldStr state "Resource").getD []) params
-          (env.task fn params (bump st.counts (fn, params)).1) env.maxData) := by
+      runFrom env fuel states name data ctx (retries + 1)
+        ((st.taskCall (bump st.counts (fn, params)).2 ((fldStr state "Resource").getD []) params
+          (replyEv env.maxData (env.task fn params (bump st.counts (fn, params)).1)) tEnd).after d) := by
   have h2 := refused_transition_retried_on_raw_input env fuel states name next state data out ctx retries
     (st.taskCall (bump st.counts (fn, params)).2 ((fldStr state "Resource").getD []) params
-          (env.task fn params (bump st.counts (fn, params)).1) env.maxData) d k hE hN hL hd
+          (replyEv env.maxData (env.task fn params (bump st.counts (fn, params)).1)) tEnd) d k hE hN hL hd
   rw [← h2.2, ← h2.1]
   have h1 : (S "Task" = S "Pass") = False := by decide
   have h2 : (S "Task" = S "Succeed") = False := by decide
   have h3 : (S "Task" = S "Fail") = False := by decide
   have h4 : (S "Task" = S "Wait") = False := by decide
   have h5 : (S "Task" = S "Choice") = False := by decide
-  simp [runState, h, h1, h2, h3, h4, h5, hr, hi, hp, hv, hs, hm]
+  simp [runState, h, h1, h2, h3, h4, h5, hr, hi, hp, ha, taskOutcome, taskEv, hv, hs, hm]
 
 /-! ### non-vacuity -/
 private def r1 : Retrier := { errorEquals := [S "A"], interval := 2, maxAttempts := 2, backoff := 3/2 }
@@ -407,36 +413,37 @@ example (fuel : Nat) (states ctx : Json) (st : St) :
   refused_transition_handled_on_raw_input envS fuel states (S "T") (S "N") tState rawIn bigOut ctx 0 st hEnd hNext hBig
 /-- … which re-runs `T` on `rawIn` with retry count 1 … -/
 example (fuel : Nat) (states ctx : Json) (st : St) :
-    leave envS (fuel + 2) states (S "T") tState rawIn bigOut ctx 0 st =
-      runFrom envS fuel states (S "T") rawIn ctx 1 st := by
+    ∃ d, leave envS (fuel + 2) states (S "T") tState rawIn bigOut ctx 0 st =
+      runFrom envS fuel states (S "T") rawIn ctx 1 (st.after d) := by
   obtain ⟨d, hd⟩ := hRetry0
-  exact (refused_transition_retried_on_raw_input envS fuel states (S "T") (S "N") tState rawIn bigOut ctx 0 st d 1
-    hEnd hNext hBig hd).1
+  exact ⟨d, (refused_transition_retried_on_raw_input envS fuel states (S "T") (S "N") tState rawIn bigOut ctx 0 st d 1
+    hEnd hNext hBig hd).1⟩
 /-- … and refused again at retry count 1: caught, `C` is entered with exactly `rawIn` -/
 example (fuel : Nat) (states ctx : Json) (st : St) :
     leave envS (fuel + 2) states (S "T") tState rawIn bigOut ctx 1 st =
       runFrom envS fuel states (S "C") rawIn ctx 0 (st.exit (S "Task") (S "T") rawIn) :=
   refused_transition_caught_null_resultpath envS fuel states (S "T") (S "N") (S "C") tState rawIn bigOut ctx 1 st
     theCatcher hEnd hNext hBig hCaught1 rfl rfl (by decide) (by decide)
-/-- the whole state, from `runState` (hypotheses of `task_refused_transition_retried_on_raw_input`) -/
+/-- the whole state, from `runState` (hypotheses of `task_refused_transition_retried_on_raw_input`): the reply
+arrives after the worker's 10 ms, the re-run starts the Retrier's interval later -/
 example (fuel : Nat) (states : Json) :
-    runState envS (fuel + 3) states (S "T") tState rawIn (.obj []) 0 {} =
+    ∃ d, runState envS (fuel + 3) states (S "T") tState rawIn (.obj []) 0 {} =
       runFrom envS fuel states (S "T") rawIn (.obj []) 1
-        { counts := [((S "f", rawIn), 1)],
-          log := [.lambdaSucceeded reply, .lambdaScheduled rawIn (S "arn:aws:rpcmessage:local::function:f")] } := by
+        (({ } : St).taskCall [((S "f", rawIn), 1)] (S "arn:aws:rpcmessage:local::function:f") rawIn
+          (.lambdaSucceeded reply) 10 |>.after d) := by
   obtain ⟨d, hd⟩ := hRetry0
-  exact task_refused_transition_retried_on_raw_input envS fuel states (S "T") (S "f") (S "N") tState rawIn (.obj [])
-    rawIn rawIn reply reply bigOut 0 {} d 1 (by rfl) (by rfl) (by rfl) (by rfl) (by rfl) (by rfl) (by rfl)
-    hEnd hNext hBig hd
+  exact ⟨d, task_refused_transition_retried_on_raw_input envS fuel states (S "T") (S "f") (S "N") tState rawIn (.obj [])
+    rawIn rawIn reply reply bigOut 0 {} d 1 10 (by rfl) (by rfl) (by rfl) (by rfl) (by decide +kernel) (by rfl) (by rfl) (by rfl)
+    hEnd hNext hBig hd⟩
 /-- a fan-out state with the same Retry, entered with retry count 0 (hypotheses of
 `fanout_refused_transition_keeps_retry_count`; `tState`'s Type plays no part in the join) -/
 example (fuel : Nat) (states : Json) (st : St) :
-    joinAndLeave envS (fuel + 3) states (S "T") tState rawIn (.obj []) 0 (.ok [reply]) st =
-      runFrom envS fuel states (S "T") rawIn (.obj []) 1 st := by
+    ∃ d, joinAndLeave envS (fuel + 3) states (S "T") tState rawIn (.obj []) 0 (.ok [reply]) st =
+      runFrom envS fuel states (S "T") rawIn (.obj []) 1 (st.after d) := by
   obtain ⟨d, hd⟩ := hRetry0
   have hb : (render (.obj [(S "a", .num 1), (S "r", .arr [reply])])).length > envS.maxData := by decide
-  exact fanout_refused_transition_keeps_retry_count envS fuel states (S "T") (S "N") tState rawIn (.obj [])
-    (.arr [reply]) _ [reply] 0 st d 1 (by rfl) (by rfl) hEnd hNext hb hd
+  exact ⟨d, fanout_refused_transition_keeps_retry_count envS fuel states (S "T") (S "N") tState rawIn (.obj [])
+    (.arr [reply]) _ [reply] 0 st d 1 (by rfl) (by rfl) hEnd hNext hb hd⟩
 /-- the whole run: T is entered on `rawIn`, its output is refused, it is re-run once on `rawIn`, refused
 again, caught, and `C` is entered with exactly `rawIn` — which is the execution's output -/
 example : (run envS 20 aslT rawIn (.obj [])).status = S "SUCCEEDED" ∧
@@ -449,9 +456,10 @@ private def tEnd : Json := .obj [
   (S "ResultPath", .str (S "$.r")), (S "End", .bool true),
   (S "Retry", .arr [.obj [(S "ErrorEquals", .arr [.str (S "States.DataLimitExceeded")]), (S "MaxAttempts", .num 1)]])]
 example (fuel : Nat) (states ctx : Json) (st : St) :
-    leave envS (fuel + 2) states (S "T") tEnd rawIn bigOut ctx 0 st = runFrom envS fuel states (S "T") rawIn ctx 1 st :=
-  (terminal_output_over_limit_retried_on_raw_input envS fuel states (S "T") tEnd rawIn bigOut ctx 0 st _ 1
-    (by rfl) hBig rfl).1
+    ∃ d, leave envS (fuel + 2) states (S "T") tEnd rawIn bigOut ctx 0 st =
+      runFrom envS fuel states (S "T") rawIn ctx 1 (st.after d) :=
+  ⟨_, (terminal_output_over_limit_retried_on_raw_input envS fuel states (S "T") tEnd rawIn bigOut ctx 0 st _ 1
+    (by rfl) hBig rfl).1⟩
 /-- the whole run of the one-state machine: two attempts, then FAILED with States.DataLimitExceeded -/
 example : (run envS 20 (.obj [(S "StartAt", .str (S "T")), (S "States", .obj [(S "T", tEnd)])]) rawIn (.obj [])).status
       = S "FAILED" ∧
